@@ -23,7 +23,8 @@ WALL = {"quick": 900, "thorough": 7200}
 REQUIRED = {"interactions_resolved": 5000, "dihedrals_resolved": 2000, "wildcard_matches": 500, "reverse_only_matches": 300,
             "multi_term_expansions": 300, "instances_checked": 2000, "expected_failures": 50, "macros_substituted": 200,
             "nonbond_pairs_checked": 3000, "explicit_overrides": 300, "c6c12_conversions": 500, "masks_seen": 14,
-            "opls_cases": 30, "multi_line_molecules": 100, "other_moleculetype_instances": 200}
+            "opls_cases": 30, "multi_line_molecules": 100, "other_moleculetype_instances": 200,
+            "macros_with_function_type": 100}
 TYPES = ["ta", "tb", "tc", "td", "te"]
 
 
@@ -158,6 +159,10 @@ def gen(rng):
     for k in range(rng.randint(0, 2)):
         macros["gb_%d" % k] = ["%.4f" % rng.uniform(0.1, 0.2), str(rng.randint(1000, 9000))]
         lines.append("#define gb_%d %s" % (k, " ".join(macros["gb_%d" % k])))
+    if rng.random() < 0.5:
+        # a macro that stands for the whole tail of the line, function type included (plain text substitution)
+        macros["gbf_0"] = ["2", "%.4f" % rng.uniform(0.1, 0.2), str(rng.randint(1000, 9000))]
+        lines.append("#define gbf_0 %s" % " ".join(macros["gbf_0"]))
     lines += ["[ moleculetype ]", "MOL 3", "[ atoms ]"]
     for i, t in enumerate(at):
         lines.append("%d %s 1 RES A%d %d 0.0" % (i + 1, t, i, i + 1))
@@ -170,7 +175,10 @@ def gen(rng):
         if c < 0.15 and macros:
             m = rng.choice(sorted(macros))
             inter["bonds"].append((idx, ("macro", m)))
-            lines.append("%d %d 2 %s" % (idx[0] + 1, idx[1] + 1, m))
+            if m.startswith("gbf_"):
+                lines.append("%d %d %s" % (idx[0] + 1, idx[1] + 1, m))
+            else:
+                lines.append("%d %d 2 %s" % (idx[0] + 1, idx[1] + 1, m))
         elif c < 0.3:
             p = ["1", "0.150", "5000"]
             inter["bonds"].append((idx, ("explicit", p)))
@@ -309,8 +317,10 @@ def run_case(cid, rng, workdir):
                         violation(res, "explicit-parameters-changed", "[%s] %s instance %d: %s, written %s" % (sec, idx, mi, g, val), w)
                     continue
                 if kind == "macro":
-                    want = ["2"] + case["macros"][val]
+                    want = (["2"] + case["macros"][val]) if not val.startswith("gbf_") else list(case["macros"][val])
                     bump(res, "macros_substituted")
+                    if val.startswith("gbf_"):
+                        bump(res, "macros_with_function_type")
                     if g != [want]:
                         violation(res, "macro-not-substituted", "[%s] %s instance %d: parameters %s, macro %s = %s" %
                                   (sec, idx, mi, g, val, case["macros"][val]), w)
